@@ -235,6 +235,14 @@ exec_nn(const vcase *vc, int tr, int pr)
 				if (words)
 					vr_tag("raw_header");
 			}
+			if (((uint32_t) vop_arg(o, 2, 1) + nsent) % 3 == 0) {
+				// round 7: the application keeps its original and sends a duplicate (header and body must travel as they were)
+				nng_msg *d = nullptr;
+				H_OK(nng_msg_dup(&d, m));
+				nng_msg_free(m);
+				m = d;
+				vr_tag("sent_duplicate");
+			}
 			int rv = nng_sendmsg(s[dir], m, NNG_FLAG_NONBLOCK);
 			if (rv == NNG_EAGAIN) {
 				// buffers full: drain the other side and retry once with a timeout
